@@ -249,3 +249,134 @@ Proof.
   - discriminate.
   - apply HP. left. reflexivity.
 Qed.
+
+(* ================================================================================================== *)
+(* The code itself.  GristGen.Bisect_gen is translated from /repo/sandbox/grist/{sort_key.py, records.py,
+   functions/prevnext.py} by harness/bs2v.py on EVERY run; the lemmas below (Proofs/Bisect_bridge.v) are
+   re-checked against that translation, so an edit that changes what these methods compute breaks a proof
+   here, not only a sampled comparison.  res_of maps ValueError to ErrValue, any other exception to ErrOther. *)
+Require Import Grist.Model.BisectPy GristGen.Bisect_gen Grist.Proofs.Bisect_bridge.
+
+(* SortKey.__lt__ (the loop with sign, the TypeError fallback descriptors, the row-id tie-break) is key_lt *)
+Theorem C14_bridge_SortKey_lt : forall cls x y, signs_ok (cls_spec cls) ->
+  SortKey___lt__ cls x y = OK (key_lt (spec_of (cls_spec cls)) x y).
+Proof. exact SortKey_lt_bridge. Qed.
+
+(* make_sort_key's col_sort_spec is split_col_spec on every entry, with sign +1 / -1 *)
+Theorem C14_bridge_make_sort_key_spec : forall table sort_spec,
+  (forall cs, In cs sort_spec -> tb_has_column table (fst (split_col_spec cs)) = true) ->
+  make_sort_key_spec table sort_spec = OK (model_cspec sort_spec) /\
+  signs_ok (model_cspec sort_spec) /\
+  spec_of (model_cspec sort_spec) = map snd (map split_col_spec sort_spec) /\
+  map fst (model_cspec sort_spec) = map fst (map split_col_spec sort_spec).
+Proof. intros. split; [apply make_sort_key_spec_bridge; assumption|apply model_cspec_ok]. Qed.
+
+(* SortKey.__init__: explicit values win; otherwise the cells of the row; a sentinel row id has none *)
+Theorem C14_bridge_SortKey_init : forall cls rows, table_ok cls rows ->
+  (forall r v vs, SortKey___init__ cls r (Some (v :: vs)) = OK (v :: vs, r)) /\
+  (forall r values, row_in_table cls r -> vals_truthy values = false ->
+     SortKey___init__ cls (RId (rid r)) values = OK (row_key r)) /\
+  (forall s values, cls_spec cls <> [] -> s = RNegInf \/ s = RPosInf -> vals_truthy values = false ->
+     SortKey___init__ cls s values = Raise ExOther).
+Proof.
+  intros cls rows HT. split; [|split]; intros.
+  - apply SortKey_init_values.
+  - apply (SortKey_init_row cls rows); assumption.
+  - apply (SortKey_init_sentinel cls rows); assumption.
+Qed.
+
+Theorem C14_bridge_at : forall self rows i, p_row_ids self = map rid rows ->
+  RecordSet__at self i = OK (rid_of (at_row rows i)).
+Proof. exact RecordSet_at_bridge. Qed.
+
+(* FindOps.lt/le/gt/ge/eq (which bisect side, which sentinel, which shift) are the model's find_* *)
+Theorem C14_bridge_find : forall self spec rows values, rs_rel self spec rows ->
+  res_of (FindOps_lt self values) = find_lt (mkRset spec rows) values /\
+  res_of (FindOps_le self values) = find_le (mkRset spec rows) values /\
+  res_of (FindOps_gt self values) = find_gt (mkRset spec rows) values /\
+  res_of (FindOps_ge self values) = find_ge (mkRset spec rows) values /\
+  res_of (FindOps_eq self values) = find_eq (mkRset spec rows) values.
+Proof.
+  intros. repeat split; [apply FindOps_lt_bridge|apply FindOps_le_bridge|apply FindOps_gt_bridge
+                         |apply FindOps_ge_bridge|apply FindOps_eq_bridge]; assumption.
+Qed.
+
+(* FindOps.previous / next / rank (index arithmetic, order="asc"/"desc") are find_previous / find_next / find_rank *)
+Theorem C14_bridge_previous_next_rank : forall self spec rows r, rs_rel self spec rows ->
+  (forall cls, p_sort_key self = Some cls -> row_in_table cls r) ->
+  res_of (FindOps_previous self (rid r)) = find_previous (mkRset spec rows) r /\
+  res_of (FindOps_next self (rid r)) = find_next (mkRset spec rows) r /\
+  (forall order, res_of (FindOps_rank self (rid r) order) =
+     if str_eqb order s_asc then find_rank (mkRset spec rows) r true
+     else if str_eqb order s_desc then find_rank (mkRset spec rows) r false
+     else ErrValue).
+Proof.
+  intros self spec rows r HR Hr. repeat split.
+  - apply FindOps_previous_bridge; assumption.
+  - apply FindOps_next_bridge; assumption.
+  - intros order. rewrite (FindOps_rank_bridge self spec rows r HR Hr). destruct spec; reflexivity.
+Qed.
+
+(* PREVIOUS / NEXT / RANK call exactly these on the record set _sorted_lookup returns *)
+Theorem C14_bridge_PREVIOUS_NEXT_RANK : forall (GB OB : Type) (sl : Z -> GB -> OB -> exc pyrset) rec gb ob,
+  PN_PREVIOUS sl rec gb ob = bind (sl rec gb ob) (fun rs => FindOps_previous rs rec) /\
+  PN_NEXT sl rec gb ob = bind (sl rec gb ob) (fun rs => FindOps_next rs rec) /\
+  (forall order, PN_RANK sl rec gb ob order = bind (sl rec gb ob) (fun rs => FindOps_rank rs rec order)).
+Proof.
+  intros. repeat split; [apply PN_PREVIOUS_bridge|apply PN_NEXT_bridge|intros; apply PN_RANK_bridge].
+Qed.
+
+(* ---- the property, stated about the translated code ------------------------------------------- *)
+Theorem C14_code_find_is_linear_scan : forall self spec rows vals, rs_rel self spec rows ->
+  spec <> [] -> vals <> [] -> dom_ok spec rows -> probe_ok rows vals -> sorted_rows spec rows ->
+  res_of (FindOps_lt self vals) = Ok (lt_scan spec vals rows) /\
+  res_of (FindOps_le self vals) = Ok (le_scan spec vals rows) /\
+  res_of (FindOps_gt self vals) = Ok (gt_scan spec vals rows) /\
+  res_of (FindOps_ge self vals) = Ok (ge_scan spec vals rows) /\
+  res_of (FindOps_eq self vals) = Ok (eq_scan spec vals rows).
+Proof.
+  intros self spec rows vals HR Hs Hv HD HP HS.
+  destruct (C14_bridge_find self spec rows vals HR) as (E1 & E2 & E3 & E4 & E5).
+  rewrite E1, E2, E3, E4, E5.
+  repeat split; [apply find_lt_scan|apply find_le_scan|apply find_gt_scan|apply find_ge_scan|apply find_eq_scan]; assumption.
+Qed.
+
+Theorem C14_code_previous_next_rank : forall (GB OB : Type) (sl : Z -> GB -> OB -> exc pyrset) gb ob self spec g1 r g2,
+  sl (rid r) gb ob = OK self ->
+  rs_rel self spec (g1 ++ r :: g2) -> spec <> [] ->
+  dom_ok spec (g1 ++ r :: g2) -> sorted_rows spec (g1 ++ r :: g2) -> NoDup (map rid (g1 ++ r :: g2)) ->
+  res_of (PN_PREVIOUS sl (rid r) gb ob) = Ok (last_id g1) /\
+  res_of (PN_NEXT sl (rid r) gb ob) = Ok (head_id g2) /\
+  res_of (PN_RANK sl (rid r) gb ob s_asc) = Ok (Z.of_nat (length g1) + 1) /\
+  res_of (PN_RANK sl (rid r) gb ob s_desc) = Ok (Z.of_nat (length g2) + 1).
+Proof.
+  intros GB OB sl gb ob self spec g1 r g2 Hsl HR Hs HD HS HN.
+  assert (forall cls, p_sort_key self = Some cls -> row_in_table cls r) as Hr.
+  { intros cls Hk. destruct (rr_some _ _ _ HR Hs) as (cls' & Hk' & _ & _ & HT).
+    assert (cls' = cls) as <- by congruence. apply (tk_rows _ _ HT). apply in_or_app. right. left. reflexivity. }
+  destruct (C14_bridge_previous_next_rank self spec _ r HR Hr) as (Ep & En & Er).
+  rewrite PN_PREVIOUS_bridge, PN_NEXT_bridge, !PN_RANK_bridge, Hsl. cbn [bind].
+  rewrite Ep, En, (Er s_asc), (Er s_desc). cbn [str_eqb str_cmp s_asc s_desc Z.compare Pos.compare Pos.compare_cont].
+  repeat split; [apply find_previous_spec|apply find_next_spec|apply find_rank_asc_spec|apply find_rank_desc_spec]; assumption.
+Qed.
+
+(* non-vacuity of rs_rel / table_ok: the record set of C14_nonvacuous_rset as a Python object *)
+Definition ex_cells :=
+  [(1, [([83], VNone); ([77], num 1 1)]); (2, [([83], num 2 1); ([77], num 2 1)]); (3, [([83], VStr [97]); ([77], num 3 1)]);
+   (4, [([83], num 4 2); ([77], num 4 1)]); (5, [([83], VSeq false [num 1 1]); ([77], num 5 1)])].
+Definition ex_cls := mkCls (table_of [[83]; [77]] ex_cells) [([83], -1); ([77], 1)].
+Definition ex_self := mkPyrset [3; 5; 2; 4; 1] (Some ex_cls) false.
+
+Example C14_nonvacuous_code :
+  make_sort_key_spec (table_of [[83]; [77]] ex_cells) [[45; 83]; [77]] = OK (cls_spec ex_cls) /\
+  rs_rel ex_self ex_spec ex_rows /\
+  res_of (FindOps_le ex_self [num 2 1]) = Ok 4 /\ res_of (FindOps_previous ex_self 4) = Ok 2 /\
+  res_of (FindOps_rank ex_self 4 s_desc) = Ok 2.
+Proof.
+  repeat split; try (vm_compute; reflexivity).
+  - discriminate.
+  - intros _. exists ex_cls. repeat split; try (vm_compute; reflexivity).
+    + constructor; [right; reflexivity|constructor; [left; reflexivity|constructor]].
+    + intros p [<-|[<-|[]]]; reflexivity.
+    + intros r [<-|[<-|[<-|[<-|[<-|[]]]]]]; vm_compute; reflexivity.
+Qed.
